@@ -430,10 +430,15 @@ def awaits_of(fx):
     return [r for r in fx if r[0] == "await"]
 
 
-@contract("bellows.ash.AshProtocol._send_data_frame", props=["C05", "C01", "C10"])
+@contract("bellows.ash.AshProtocol._send_data_frame", props=["C05", "C01", "C10", "C11"])
 def _(c):
     c.self(ASH)
     c.arg("frame", SendFrameT)
+    # "frame numbers are consecutive" (C05) / "after a completed handshake both directions restart at frame number
+    # zero" (C11): the only thing a send ever does to the transmit counter is to advance the value it finds at that
+    # moment by one -- it never writes back a number computed before a suspension (an RSTACK handled meanwhile has
+    # reset the counter, and must not be undone)
+    c.on_write("_tx_seq", "advances_the_current_number_by_one", lambda old_value, new_value: new_value == (old_value + 1) % 8)
     c.observe(lambda self: {"ncp_state": self._ncp_state, "tx_seq": self._tx_seq, "rx_seq": self._rx_seq,
                             "t_rx_ack": self._t_rx_ack})
     # exceptions a send may end with ("it then returns after an acknowledgement covering its frame or
